@@ -14,7 +14,7 @@ pub const PROP: Prop = Prop { id: "C09", spec, run, replay };
 
 const ALPHA: [&str; 17] = [" ", "\t", "\n", "\"", "'", "\\", "-", "*", "?", "[", "{", "}", "$", "(", "a", "\u{e9}", "."];
 const PIECES: [&str; 8] = ["{}", "x", "{}{}", "a{}b", "{", "}", "{ }", ""];
-const OUTCOMES: [&str; 6] = ["0", "1", "2", "255", "s15", "missing"];
+const OUTCOMES: [&str; 8] = ["0", "1", "2", "255", "s15", "missing", "noexec", "isdir"];
 const POSITIONS: [&str; 6] = ["alone", "before-printf", "under-not", "left-of-or", "after-false", "after-name-test"];
 
 fn spec(t: Tier) -> Spec {
@@ -80,6 +80,8 @@ struct Case<'a> {
     position: &'static str,
     missing: bool,
     binary: bool,
+    /// why the command cannot start ("" if it can): "missing", "noexec", "isdir"
+    missing_kind: &'static str,
     /// walk variant: "plain", "depth" (-depth: the slash-less starting point is visited last) or
     /// "tworoots" (a second, slash-less starting point `u` after `t`)
     walk: &'static str,
@@ -107,7 +109,23 @@ fn check_case(ctx: &mut Ctx, ns: &[Vec<u8>], c: &Case) -> Option<(String, String
     let log = sbx.join(".mc-vrec.log");
     let _ = std::fs::remove_file(&log);
     let prim = if c.execdir { "-execdir" } else { "-exec" };
-    let cmd = if c.missing { sbx.join("no-such-command").to_string_lossy().to_string() } else { vrec.to_string_lossy().to_string() };
+    // a command that cannot be started: missing, present without execute permission, or a directory
+    let cmd = match c.missing_kind {
+        "missing" => sbx.join("no-such-command").to_string_lossy().to_string(),
+        "noexec" => {
+            let p = sbx.join(".mc-noexec");
+            let _ = std::fs::write(&p, b"#!/bin/sh\nexit 0\n");
+            use std::os::unix::fs::PermissionsExt;
+            let _ = std::fs::set_permissions(&p, std::fs::Permissions::from_mode(0o644));
+            p.to_string_lossy().to_string()
+        }
+        "isdir" => {
+            let p = sbx.join(".mc-dircmd");
+            let _ = std::fs::create_dir(&p);
+            p.to_string_lossy().to_string()
+        }
+        _ => vrec.to_string_lossy().to_string(),
+    };
     let logs = log.to_string_lossy().to_string();
     let mut exec: Vec<String> = vec![prim.into(), cmd, logs];
     exec.extend(c.template.iter().map(|s| s.to_string()));
@@ -252,7 +270,7 @@ fn check_case(ctx: &mut Ctx, ns: &[Vec<u8>], c: &Case) -> Option<(String, String
 fn report(ctx: &mut Ctx, ns: &[Vec<u8>], c: &Case, maxlen: usize) {
     if let Some((sig, detail)) = check_case(ctx, ns, c) {
         match check_case(ctx, ns, c) {
-            Some((s2, _)) if s2 == sig => ctx.rep.violation(&sig, detail, json!({"prop":"C09","execdir":c.execdir,"template":c.template,"script":c.script,"position":c.position,"missing":c.missing,"binary":c.binary,"maxlen":maxlen,"walk":c.walk})),
+            Some((s2, _)) if s2 == sig => ctx.rep.violation(&sig, detail, json!({"prop":"C09","execdir":c.execdir,"template":c.template,"script":c.script,"position":c.position,"missing":c.missing,"binary":c.binary,"maxlen":maxlen,"walk":c.walk,"missing_kind":c.missing_kind})),
             _ => ctx.rep.machinery(format!("nondeterministic verdict: {sig}")),
         }
     }
@@ -276,7 +294,7 @@ fn run(ctx: &mut Ctx) {
                 continue;
             }
             ctx.progress(job);
-            let c = Case { execdir, template: t, script: vec!["0"], position: "before-printf", missing: false, binary: false, walk: "plain" };
+            let c = Case { execdir, template: t, script: vec!["0"], position: "before-printf", missing: false, binary: false, missing_kind: "", walk: "plain" };
             report(ctx, &ns, &c, maxlen);
             if job % 101 == 1 {
                 ctx.rep.sample(json!({"primary": if execdir {"-execdir"} else {"-exec"}, "template": t, "names": ns.iter().take(10).map(|n| lossy(n)).collect::<Vec<_>>()}));
@@ -298,10 +316,10 @@ fn run(ctx: &mut Ctx) {
                             continue;
                         }
                         ctx.progress(job);
-                        let missing = o == "missing";
+                        let missing = matches!(o, "missing" | "noexec" | "isdir");
                         // outcomes alternate per file so that truth differs between neighbours
                         let script: Vec<&'static str> = if missing { vec!["0"] } else { vec![o, "0", o, o, "0"] };
-                        let c = Case { execdir, template: t, script, position: pos, missing, binary, walk: "plain" };
+                        let c = Case { execdir, template: t, script, position: pos, missing, binary, missing_kind: if missing { o } else { "" }, walk: "plain" };
                         report(ctx, &ns, &c, maxlen);
                         if binary {
                             ctx.rep.traces_validated += 1;
@@ -321,7 +339,7 @@ fn run(ctx: &mut Ctx) {
                 if !ctx.mine(job) {
                     continue;
                 }
-                let c = Case { execdir, template: t, script: vec!["0", "1"], position: "before-printf", missing: false, binary: false, walk };
+                let c = Case { execdir, template: t, script: vec!["0", "1"], position: "before-printf", missing: false, binary: false, missing_kind: "", walk };
                 report(ctx, &ns, &c, maxlen);
             }
         }
@@ -347,7 +365,7 @@ fn nonutf8_slice(ctx: &mut Ctx, job: &mut u64) {
                 }
                 built = true;
             }
-            let c = Case { execdir, template: t, script: vec!["0"], position: "alone", missing: false, binary: false, walk: "plain" };
+            let c = Case { execdir, template: t, script: vec!["0"], position: "alone", missing: false, binary: false, missing_kind: "", walk: "plain" };
             report(ctx, &ns, &c, 0);
             ctx.rep.count("runs_over_names_that_are_not_valid_utf8", 1);
         }
@@ -361,7 +379,7 @@ fn replay(case: &Value, ctx: &mut Ctx) -> Option<String> {
     let template: Vec<&'static str> = case["template"].as_array()?.iter().filter_map(|v| PIECES.iter().chain(["a{}b{}"].iter()).find(|p| Some(**p) == v.as_str()).copied()).collect();
     let script: Vec<&'static str> = case["script"].as_array()?.iter().filter_map(|v| OUTCOMES.iter().find(|p| Some(**p) == v.as_str()).copied()).collect();
     let position = POSITIONS.iter().find(|p| Some(**p) == case["position"].as_str())?;
-    let c = Case { execdir: case["execdir"].as_bool()?, template: &template, script, position, missing: case["missing"].as_bool()?, binary: case["binary"].as_bool().unwrap_or(false), walk: ["plain", "depth", "tworoots"].into_iter().find(|w| Some(*w) == case["walk"].as_str()).unwrap_or("plain") };
+    let c = Case { execdir: case["execdir"].as_bool()?, template: &template, script, position, missing: case["missing"].as_bool()?, binary: case["binary"].as_bool().unwrap_or(false), missing_kind: ["missing", "noexec", "isdir"].into_iter().find(|w| Some(*w) == case["missing_kind"].as_str()).unwrap_or(if case["missing"].as_bool().unwrap_or(false) { "missing" } else { "" }), walk: ["plain", "depth", "tworoots"].into_iter().find(|w| Some(*w) == case["walk"].as_str()).unwrap_or("plain") };
     match check_case(ctx, &ns, &c) {
         Some((sig, detail)) => {
             ctx.rep.violation(&sig, detail, case.clone());
